@@ -256,18 +256,20 @@ def buffer_semantics(cx, rep):
             rep.unknown('BufferAudioSource.%s: %s' % (nm, exc))
     # ------------------------------------------------------------ rewind() returns to position 0
     try:
-        ok, seen = True, 0
-        for l in dl(rw):
-            if l.outcome == 'raise':
-                continue
-            d, a = A(3, 4, 2, 1)
-            if not holds(l, evaluator(a, fields=fields)):
-                continue
-            seen += 1
-            ok = ok and stores(l, evaluator(a, fields=fields), {cur_f}).get(cur_f) == 0
-        if not seen:
-            raise Undecided('no path of rewind() applies')
-        rep.ob('rewind() returns to position 0', ok, W(rw[2]), 'BufferAudioSource.rewind')
+        for state_, is_open_ in (('an open', True), ('a closed', False)):
+            ok, seen = True, 0
+            for l in dl(rw):
+                if l.outcome == 'raise':
+                    continue
+                d, a = A(3, 4, 2, 1, is_open=is_open_)
+                if not holds(l, evaluator(a, fields=fields)):
+                    continue
+                seen += 1
+                ok = ok and stores(l, evaluator(a, fields=fields), {cur_f}).get(cur_f) == 0
+            if not seen:
+                raise Undecided('no path of rewind() applies to %s source' % state_)
+            # histories include close/open and position assignments in any order: a rewind between close and open counts too
+            rep.ob('rewind() returns to position 0 (on %s source)' % state_, ok, W(rw[2]), 'BufferAudioSource.rewind[%s]' % ('open' if is_open_ else 'closed'))
     except Undecided as exc:
         rep.unknown('BufferAudioSource.rewind: %s' % exc)
     # ------------------------------------------------------------ close() returns to the start
@@ -288,6 +290,29 @@ def buffer_semantics(cx, rep):
         rep.ob('close() returns to the start (rewinds) on every path', ok, W(cl[2]), 'BufferAudioSource.close:rewind')
     except Undecided as exc:
         rep.unknown('BufferAudioSource.close: %s' % exc)
+
+def check_buffered_open(cx, rep):
+    """the byte stream a file source reads from is a BUFFERED binary reader: read(n) of io.BufferedReader returns n bytes unless
+    the stream ends, whereas a raw (buffering=0) file object returns whatever one system call delivers -- short chunks on pipes,
+    which the framing reader would hand on as short windows"""
+    n = 0
+    for mod in cx.code_mods():
+        for node in ast.walk(cx.model.mods[mod]['tree']):
+            if not (isinstance(node, ast.Call) and isinstance(node.func, ast.Name) and node.func.id == 'open'):
+                continue
+            mode = node.args[1] if len(node.args) > 1 else next((k.value for k in node.keywords if k.arg == 'mode'), None)
+            if not (isinstance(mode, ast.Constant) and isinstance(mode.value, str) and 'b' in mode.value and 'r' in mode.value):
+                continue
+            n += 1
+            buf = node.args[2] if len(node.args) > 2 else next((k.value for k in node.keywords if k.arg == 'buffering'), None)
+            unbuffered = isinstance(buf, ast.Constant) and buf.value in (0, False) and buf.value is not None
+            if buf is not None and not isinstance(buf, ast.Constant):
+                rep.unknown('open() at %s: the buffering argument %s is not a constant' % (cx.where(mod, node), ast.unparse(buf)))
+                continue
+            rep.ob('a file read as audio is opened buffered (read(n) returns n bytes until the stream ends)', not unbuffered, cx.where(mod, node), 'open:%s' % ast.unparse(node)[:60],
+                   'opened with buffering=%s' % (ast.unparse(buf) if buf is not None else 'default'), sample=dict(call=ast.unparse(node)[:80]))
+    rep.floor('binary files opened for reading', n, 2)
+
 
 def check(repo, rep):
     cx = Ctx(repo)
@@ -410,7 +435,7 @@ def check(repo, rep):
         o = cx.model.find_method(mod, c, 'open')
         if o is None or c.name not in ('RawAudioSource', 'WaveAudioSource', 'StdinAudioSource'):
             continue            # the property's source kinds; the buffer source has no stream to recreate
-        for l in split_ites(cx.leaves_of(*o)):
+        for l in split_ites(cx.leaves_dyn(o)):
             st = [e for e in l.effects if e[0] == 'store' and e[1][0] == 'attr' and e[1][1] == ('self',) and e[2][0] == 'call'
                   and term_name(e[2][1]).split('.')[-1] in ('open', 'Wave_read', 'PyAudio', 'BufferedReader')]
             for e in st:
@@ -525,7 +550,7 @@ def check(repo, rep):
             continue
         try:
             state = None
-            for l in deep_leaves(cx, ini[0], c, ini[2]):
+            for l in deep_leaves(cx, ini[0], c, ini[2], inline_super=True):
                 if l.outcome == 'raise':
                     continue
                 cur = {}
@@ -554,7 +579,7 @@ def check(repo, rep):
 
             def apply(meth, st):
                 hit = []
-                for l in deep_leaves(cx, meth[0], c, meth[2]):
+                for l in deep_leaves(cx, meth[0], c, meth[2], inline_super=True):
                     ok_ = True
                     for ct, tr, _ in l.conds:
                         ev_ = evaluator(ov(st))
@@ -570,6 +595,9 @@ def check(repo, rep):
                     raise Undecided('%d paths of %s apply' % (len(hit), meth[2].name))
                 st2 = dict(st)
                 for e in hit[0].effects:
+                    if e[0] == 'call' and e[1][0] == 'call' and e[1][1][0] == 'attr' and (e[1][1][1] == ('self',) or (e[1][1][1][0] == 'call' and e[1][1][1][1] == ('b', 'super'))):
+                        raise Undecided('%s calls %s, which was not followed (it may change the state)' % (meth[2].name, show(e[1])[:50]))
+                for e in hit[0].effects:
                     if e[0] == 'store' and e[1][0] == 'attr' and e[1][1] == ('self',):
                         try:
                             ev2 = evaluator(ov(st2))
@@ -580,7 +608,7 @@ def check(repo, rep):
                 return st2
 
             def is_open(st):
-                lv_ = [l for l in deep_leaves(cx, iso[0], c, iso[2]) if l.outcome == 'return']
+                lv_ = [l for l in deep_leaves(cx, iso[0], c, iso[2], inline_super=True) if l.outcome == 'return']
                 if len(lv_) != 1 or lv_[0].conds:
                     raise Undecided('is_open() has several paths')
                 ev_ = evaluator(ov(st))
@@ -636,7 +664,8 @@ def check(repo, rep):
         okall = all(l.outcome == 'raise' or any(e[0] == 'call' and e[1][0] == 'call' and e[1][1] == ('g', 'io', 'check_audio_data') and e[4] == 0 for e in l.effects) for l in lv)
         rep.ob('%s calls check_audio_data unconditionally' % qual, okall, cx.where(mod, cx.fn(mod, qual)), '%s:check_audio_data' % qual)
     rep.floor('read() implementations analysed', nread, 5)
-    check_roles(cx, rep, lambda p: p['where'].startswith('auditok/io.py'), floor=60)
+    check_buffered_open(cx, rep)
+    check_roles(cx, rep, lambda p: cx.in_module(p['where'], 'io'), floor=60)
     rep.explanation = ('Sibling agreement of the read() implementations of every concrete AudioSource subclass found in the class table (5 today), each resolved through its MRO and decided on every path: '
                        'the open test is the first test and its failing branch raises AudioIOError; every returned value is None or was tested non-empty on that path (never b""); file sources request '
                        'size * sample_width * channels bytes (size frames for wave), None/negative size reads all. The buffer source is decided operation by operation, semantically: its paths (helpers, '
